@@ -249,19 +249,19 @@ def _parse_vevent(
     # EXDATEs (exceptions)
     exdates = []
     if "EXDATE" in component:
-        # EXDATE can appear multiple times or contain multiple values
-        # decoded() handles the parsing into datetime/date objects
-        exdate_props = component.decoded("EXDATE")
+        # EXDATE can appear multiple times (a list of properties) and each
+        # property can hold several values (its .dts)
+        exdate_props = component.get("EXDATE")
 
         # Ensure list
         if not isinstance(exdate_props, list):
             exdate_props = [exdate_props]
 
-        for ed in exdate_props:
-            if isinstance(ed, (date, datetime)):
+        for prop in exdate_props:
+            for value in getattr(prop, "dts", ()):
                 # Note: This logic assumes exceptions are in the same timeframe
                 # convention as start
-                exdates.append(_dt_to_timestamp(ed))
+                exdates.append(_dt_to_timestamp(value.dt))
 
     return RecurringPattern(
         freq=cast(Any, freq),
